@@ -110,3 +110,16 @@ fn ordering_fix_rational_table() {
         }
     }
 }
+
+/// writer side (C12): `a+bi` is only valid syntax when b is finite and non-negative; NaN and the
+/// infinities carry their own sign, so they must NOT be reported as finite
+#[kani::proof]
+fn complex_imaginary_sign_classification() {
+    let f: f64 = kani::any();
+    let c = SteelComplex::new(SteelVal::IntV(1), SteelVal::NumV(f));
+    assert!(c.imaginary_is_finite() == f.is_finite(), "a NaN / infinite imaginary part was classified as finite");
+    assert!(c.imaginary_is_negative() == f.is_sign_negative());
+    let i: isize = kani::any();
+    let d = SteelComplex::new(SteelVal::IntV(1), SteelVal::IntV(i));
+    assert!(d.imaginary_is_finite() && d.imaginary_is_negative() == (i < 0));
+}
